@@ -179,6 +179,12 @@ class Environment:
 
     def reload(self):
         self.variables.reset()
+        # The toolchain file is about to be run again and sets the target
+        # platform anew if it wants one; start from the default, so that
+        # removing `target_platform()` from the file takes effect as well.
+        self.target_platform = platforms.target.platform_info(
+            arch=self.host_platform.arch
+        )
 
     @property
     def is_cross(self):
